@@ -40,6 +40,7 @@ structure GeomAns where
   len : Option Nat            -- none = panic
   ptsOk : Bool
   ptsNoLen : Bool
+  nilDrain : Option (List (Pt UInt64))   -- Len() panicked: the points the iterator returned before it panicked
   pts : List (Pt UInt64)
   indep : Bool
   beyond : Option (Option (Pt UInt64))   -- the call after the last vertex: absent | panic | the point returned
@@ -55,12 +56,16 @@ def pGeomAns (t : Tok) : Option GeomAns := do
     | "len" :: "ok" :: n :: t => do let n ← n.toNat?; pure (some n, t)
     | "len" :: "panic" :: t => pure (none, t)
     | _ => none
-  let (ptsOk, noLen, pts, t) ← match t with
-    | "pts" :: "nolen" :: t => pure (false, true, [], t)
+  let (ptsOk, noLen, pts, nilDrain, t) ← match t with
+    | "pts" :: "nolen" :: "drained" :: k :: t => do
+      let k ← k.toNat?
+      let (ps, t) ← pPtsN k t
+      pure (false, true, [], some ps, t)
+    | "pts" :: "nolen" :: t => pure (false, true, [], none, t)
     | "pts" :: st :: k :: t => do
       let k ← k.toNat?
       let (ps, t) ← pPtsN k t
-      pure (st == "ok", false, ps, t)
+      pure (st == "ok", false, ps, none, t)
     | _ => none
   let (indep, t) := match t with
     | "indep" :: d :: t => (d == "1", t)
@@ -97,7 +102,7 @@ def pGeomAns (t : Tok) : Option GeomAns := do
       | "bnd" :: t => do let (r, _) ← pBoxRes t; pure (some (some (n, st == "ok", ps, some r)))
       | _ => none
     | _ => none
-  pure { len := len, ptsOk := ptsOk, ptsNoLen := noLen, pts := pts, indep := indep, beyond := beyond, bnd := bnd, again := again, swap := swap, hist := hist, mutated := mutd }
+  pure { len := len, ptsOk := ptsOk, ptsNoLen := noLen, nilDrain := nilDrain, pts := pts, indep := indep, beyond := beyond, bnd := bnd, again := again, swap := swap, hist := hist, mutated := mutd }
 
 def geomClass : BGeom → String
   | .point _ => "point" | .multiPoint _ => "multipoint" | .lineString _ => "linestring"
@@ -221,6 +226,18 @@ def judgeGeomNaN (g : BGeom) (cls0 : String) (rhs : Tok) : String :=
       | .error _, none => s!"OK {cls}"
       | .error e, some _ => s!"DIFF {cls} bounds model=fault-{showFault e}"
 
+/-- the points a fresh iterator returns until it panics (at most `fuel` calls); `[]` when `Points()` itself panics -/
+def drainToFault (g : BGeom) (fuel : Nat) : List (Pt UInt64) :=
+  let rec go : Nat → ItSt → List (Pt UInt64) → List (Pt UInt64)
+    | 0, _, acc => acc.reverse
+    | n+1, s, acc =>
+      match @next UInt64 bitsLT bitsDecLT g s with
+      | .ok (v, s') => go n s' (v :: acc)
+      | .error _ => acc.reverse
+  match init g with
+  | .error _ => []
+  | .ok s => go fuel s []
+
 def judgeGeom (g : BGeom) (rhs : Tok) : String :=
   let run := emptyRun g
   let cls0 := "geom-" ++ geomClass g ++ (if run ≥ 2 then "-emptyrun" else if run = 1 then "-emptymember" else "")
@@ -310,7 +327,13 @@ def judgeGeom (g : BGeom) (rhs : Tok) : String :=
           | .ok _, none => some "call-beyond-Len model=ok impl=panic"
           | .error _, none => none
           | .error e, some _ => some s!"call-beyond-Len model=fault-{showFault e} impl=ok"
-      let dPts := match dPts with | some w => some w | none => dBey
+      -- Len() panicked (nil member): the points handed out before the iterator panics (C04_nil_points_prefix/_fault)
+      let dNil : Option String := match a.nilDrain with
+        | none => none
+        | some ps =>
+          if ps == drainToFault g ((verticesBits g).length + 2) then none
+          else some s!"points-before-the-nil-member impl={ps.length}"
+      let dPts := match dPts with | some w => some w | none => (match dBey with | some w => some w | none => dNil)
       match dLen, dPts, dBnd with
       | none, none, none => s!"OK {cls}"
       | some w, _, _ => s!"DIFF {cls} {w}"
